@@ -88,9 +88,18 @@ func (fs *FileSystemOperation) Restore() error {
 	}
 
 	// We iterate over the diff and restore the files that have changed.
-	for path, content := range fileSystemSnapshot.GetDiff(fs.backUp.dataMD5) {
+	for path, content := range fs.backUp.GetDiff(fileSystemSnapshot.dataMD5) {
 		if err := fs.storeFileOnDisk(path, content); err != nil {
 			return err
+		}
+	}
+
+	// Files that did not exist when the backup was taken are removed.
+	for path := range fileSystemSnapshot.data {
+		if _, found := fs.backUp.data[path]; !found {
+			if err := fs.cleanUpFile(path); err != nil {
+				return err
+			}
 		}
 	}
 
